@@ -2,7 +2,7 @@
    static escaped text, a silent statement, or an action whose pipeline ends in the escaper;
    and an action ending in the escaper emits escaped text whatever the data. *)
 From PV Require Import Base.Bytes Base.Escape Js.Ast Tmpl.Value Tmpl.IR Tmpl.Runtime Tmpl.Exec Pug.Ast Pug.Compile
-  Proofs.EscapeProofs.
+  Proofs.EscapeProofs Proofs.C06Proofs.
 
 Definition html_cmd : list targ := [AIdent (B "__pug__html")].
 Definition ends_in_escaper (p : tpipe) : Prop :=
@@ -10,6 +10,9 @@ Definition ends_in_escaper (p : tpipe) : Prop :=
 
 Inductive printing_shape : list tok -> Prop :=
 | PS_static s : EscText s -> printing_shape [TText s]
+(* static text whose braces are quoted (after repair F-C06-f): texts and the string-literal actions {{"{{"}},
+   {{"}}"}}, {{"{"}} (no trim markers), whose values, in order, are the escaped text *)
+| PS_quoted ts v : toks_value ts = Some v -> EscText v -> printing_shape ts
 | PS_null txt : printing_shape [TAct txt false false (AcPipe ([], [[AIdent (B "null")]]))]
 | PS_decl txt x cmds : printing_shape [TAct txt false true (AcPipe ([x], cmds))]
 | PS_assign txt o k a :
@@ -64,7 +67,10 @@ Section Shape.
            apply PS_escaped; split; [reflexivity|eexists; reflexivity]).
     - (* JNum *) inversion H; subst. apply PS_static, show_Z_EscText.
     - (* JNumF *) exfalso; eapply Hnf; reflexivity.
-    - (* JStr *) destruct (has_delim (escape s)); inversion H; subst. apply PS_static, escape_EscText.
+    - (* JStr *)
+      rewrite ctext_total in H. destruct (text_toks (quote_text (escape s))) as [|t0 r0] eqn:Et; inversion H; subst.
+      + apply PS_static. constructor.
+      + rewrite <- Et. apply (PS_quoted _ (escape s)); [apply toks_value_text|apply escape_EscText].
     - (* JBool *) inversion H; subst. apply PS_static, plain_EscText. destruct b; reflexivity.
     - (* JNull *) inversion H; subst. apply PS_null.
     - (* JUn *)
